@@ -58,6 +58,10 @@ struct Shm
   volatile int ndied;
   volatile int died[16];
   volatile int ndouble;
+  // a destruction the specification does not allow in this step ends the child at once (exit 43:
+  // the verdict comes from the instance counter, not from a sanitizer); the first `natural_left`
+  // such cases run on, so that what the sanitizer says about them is on record
+  volatile int natural_left;
   // counters
   volatile long behaviours, steps, checks, instances, truncated_alt, truncated_dev, findings;
   volatile long alt_counts[8];
